@@ -311,9 +311,15 @@ impl Session {
     /// active for zero milliseconds. Neither is a legitimate value, so
     /// rejecting them protects against a trivial pre-auth DoS.
     pub(crate) fn set_peer_session_params(&mut self, params: &SessionParameters) {
+        /// The Matter Core spec caps SESSION_IDLE_INTERVAL and SESSION_ACTIVE_INTERVAL at one
+        /// hour. A (pre-authentication) peer advertising more would otherwise stretch our
+        /// retransmission ladder and receive time-out - and with them the exchange, the
+        /// handler and the two session slots of its handshake - to weeks.
+        const MAX_INTERVAL_MS: u32 = 3_600_000;
+
         if let Some(sai) = params.sai {
             if sai > 0 {
-                self.peer_active_interval_ms = sai;
+                self.peer_active_interval_ms = sai.min(MAX_INTERVAL_MS);
             } else {
                 warn!("Peer advertised session_parameters.sai=0; ignoring");
             }
@@ -321,7 +327,7 @@ impl Session {
 
         if let Some(sii) = params.sii {
             if sii > 0 {
-                self.peer_idle_interval_ms = sii;
+                self.peer_idle_interval_ms = sii.min(MAX_INTERVAL_MS);
             } else {
                 warn!("Peer advertised session_parameters.sii=0; ignoring");
             }
